@@ -29,14 +29,17 @@ CLAIMED["C09"] = dict(
 CLAIMED["C14"] = dict(
    text="Theorem C14_hint_roundtrip (for ALL item lists, index intervals, data sizes): reading a written hint file yields exactly the items and "
         "the recorded data size, over a byte-level model of hintFileWriter/hintFileReader/loadHintIndex/hintFileIndex.get (binary search as "
-        "sort.Search, sparse-index seek)/HintBuffer/merge. Finding F1 (lookup of an absent key above all hashes errors) is a refutation theorem "
+        "sort.Search, sparse-index seek)/HintBuffer/merge. C14_lookup_total (proofs/HintLookup.v): for ALL hash-sorted item lists, intervals and "
+        "(hash, key) queries the byte-level lookup -- index loaded back from the file (C14_index_roundtrip), binary search, seek to the preceding "
+        "index entry, scan -- returns the item iff it is present and NOT-FOUND otherwise, never an error; C14_dumped_lookup_total: the same on "
+        "every file HintBuffer.Dump writes. The proof needs the translated flag hint_get_offset_synced (the F1 repair). Finding F1 (lookup of an absent key above all hashes errors) is a refutation theorem "
         "over the model parameterised by a flag translated from the source, and was repaired by a fix: commit; the flag is proved on for the "
         "current tree. Correspondence: files built through HintBuffer.Set/Dump compared byte for byte, read-back, index length, ~13k lookups "
         "per quick run (present / absent below, between, same-hash-other-key, above), k-way merge output and collision table; a python spec "
         "oracle (round-trip, found-iff-present-never-error, greatest-position-wins, same-hash groups reported) judges the implementation.",
-   note="PARTIAL: total-lookup and merge-spec are established by correspondence + spec oracle, not yet by a general theorem (only the "
-        "round-trip is proved for all inputs). Trusted: Coq kernel, translator, Go harness, python oracle. No axioms.",
-   technique="Rocq proof of hint-file round-trip over a byte-level model + refutation/repair of the lookup defect; differential correspondence for lookup and merge",
+   note="PARTIAL: the merge spec (greatest position per key, every same-hash group reported) is established by correspondence + spec oracle, "
+        "not by a general theorem (proved: merged items come from the sources; no collision reported on collision-free inputs -- GcMerge.v). Trusted: Coq kernel, translator, Go harness, python oracle. No axioms.",
+   technique="Rocq proofs of hint-file round-trip and total lookup over a byte-level model + refutation/repair of the lookup defect; differential correspondence for lookup and merge",
    design="6/C14")
 CLAIMED["C01"] = dict(
    text="Theorem C01_refines (coq/props/C01.v): for ALL configurations, ALL key sets on which the key hash does not collide and ALL histories "
